@@ -74,7 +74,11 @@ def build(cfg, trace=trace_plain, init_shift=0.0, chains=None):
         else:
             sampler = mici.samplers.DynamicMultinomialHMC(system, integ, rng, max_tree_depth=2)
     chains = list(range(cfg["n_chain"])) if chains is None else chains
-    inits = [ChainState(pos=np.array([0.3 * (c + 1) + init_shift * (c != cfg.get("focus", -1)),
+    # chains start at different scales (chain 1 far in the tail) so that per-chain quantities
+    # such as the initial step-size search differ between chains
+    scale = [1.0, 9.0, 0.3, 4.0, 2.0]
+    inits = [ChainState(pos=np.array([0.3 * (c + 1) * scale[c % 5]
+                                      + init_shift * (c != cfg.get("focus", -1)),
                                       -0.2 + 0.1 * c]),
                         mom=np.array([0.5, -0.1 * (c + 1)]), dir=1, cid=c) for c in chains]
     if cfg.get("init_form") == "array":
@@ -175,7 +179,21 @@ def check_schedules(cfg, acc):
                  assignment=sched.assignments)
             first["viol"] = True
 
-    res = explore(run, on_leaf, bound=cfg["bound"], max_leaves=cfg.get("max_leaves"))
+    from mc.explore_choice import Divergence
+
+    for attempt in range(3):
+        try:
+            res = explore(run, on_leaf, bound=cfg["bound"], max_leaves=cfg.get("max_leaves"))
+            break
+        except Divergence as e:
+            # harness nondeterminism (rare, under heavy load): repeat this configuration from
+            # scratch; three divergences in a row are a hard error
+            acc.count("divergence_retries")
+            acc.notes["last_divergence"] = str(e)[:400]
+            assignments.clear()
+            first["viol"] = False
+            if attempt == 2:
+                raise
     acc.count("distinct_assignments", len(assignments))
     acc.notes["capped"] = bool(acc.notes.get("capped")) or res["capped"]
     if not first["viol"]:
@@ -239,18 +257,22 @@ def check_independence(cfg, acc):
 
     n = cfg["n_chain"]
     full = run_sampler(cfg, 1)
+    # with a step-size adapter the chains interact when the first adaptive stage is finalized:
+    # only the rows of that first stage are compared
+    rows = slice(0, cfg["n_iter"]) if cfg["stages"] == "step" else slice(None)
     for focus in range(n):
         c2 = dict(cfg, focus=focus)
         # other chains' initial states changed
         acc.count("evaluations")
         shifted = run_sampler(c2, 1, init_shift=0.37)
         for k in full["traces"]:
-            if not np.array_equal(full["traces"][k][focus], shifted["traces"][k][focus]):
+            if not np.array_equal(full["traces"][k][focus][rows],
+                                  shifted["traces"][k][focus][rows]):
                 viol("depends_on_other_chains_initial_states", k, "identical rows",
                      focus=focus)
                 return
         for k in full["stats"]:
-            if not np.array_equal(full["stats"][k][focus], shifted["stats"][k][focus],
+            if not np.array_equal(full["stats"][k][focus][rows], shifted["stats"][k][focus][rows],
                                   equal_nan=True):
                 viol("depends_on_other_chains_initial_states", k, "identical rows",
                      focus=focus)
@@ -379,20 +401,28 @@ def configs(tier, seed):
     for stages in ("single", "step", "noadapt2", "windowed"):
         for n_process, n_chain in ((2, 2), (2, 3), (3, 3)) + (() if quick else ((3, 4), (2, 4))):
             for sampler in ("static",) if quick else ("static", "multinomial"):
-                bgs = ("PCG64",) if (quick and (n_process, n_chain) != (2, 3)) else BITGENS
+                bgs = ("PCG64",) if (n_process, n_chain) != (2, 3) else BITGENS
                 for bg in bgs:
+                    # preemption bound: deepest for the single-stage PCG64 runs, one less for
+                    # multi-stage runs / other bit generators (values cannot depend on the
+                    # generator type beyond the stream, which (d) checks separately)
                     b = bound
-                    if stages != "single" or bg != "PCG64":
-                        b = 0 if quick else 1
+                    if stages != "single" or bg != "PCG64" or sampler != "static":
+                        b = bound - 1
+                    if not quick and n_chain == 4:
+                        b = min(b, 1)
                     cfgs.append({"mode": "schedules", "stages": stages, "n_process": n_process,
                                  "n_chain": n_chain, "n_iter": 1 if stages == "windowed" else 2,
                                  "sampler": sampler, "bitgen": bg, "bound": b, "seed": seed,
-                                 "max_leaves": 4000 if not quick else 600})
+                                 "max_leaves": 2500 if not quick else 600})
     for stages in ("single", "step"):
         for n_process, n_chain in ((2, 3),) + (() if quick else ((3, 4),)):
             cfgs.append({"mode": "real_pool", "stages": stages, "n_process": n_process,
                          "n_chain": n_chain, "n_iter": 2, "sampler": "static", "bitgen": "PCG64",
                          "seed": seed})
+    for sampler in ("static", "multinomial"):
+        cfgs.append({"mode": "independence", "stages": "step", "n_chain": 3, "n_iter": 3,
+                     "sampler": sampler, "bitgen": "PCG64", "seed": seed})
     for stages in ("single", "noadapt2"):
         for bg in BITGENS:
             for sampler in ("static", "multinomial"):
